@@ -88,16 +88,7 @@ def check_null(case):
         A_prev = mineral.orientations[-1].copy()
         f_prev = mineral.fractions[-1].copy()
         if case["bulk"]:
-            F = sut(
-                pydrex.update_all,
-                [mineral],
-                params,
-                F,
-                flow.get_velocity_gradient,
-                (flow.t_of(ta), flow.t_of(tb), flow.get_position),
-                get_regime=get_regime,
-                allowed=hist.SOLVER_ERRORS,
-            )
+            F = hist.update_bulk([mineral], params, F, flow, ta, tb, get_regime=get_regime)
         else:
             F = hist.update(mineral, params, F, flow, ta, tb, get_regime=get_regime)
         require(len(mineral.orientations) == k + 2 and len(mineral.fractions) == k + 2, "update did not append one snapshot")
